@@ -477,6 +477,12 @@ C15_run(H) ==
     /\ ff # {} => /\ ~H.out.ok /\ ~H.out.has_result
                   /\ \A i \in ff : H.flt[i].class \in {"fatal", "typed"} => HasCause(H.out, CauseName(H.flt[i]))
     /\ (ff = {} /\ H.cancel < 0) => H.out.ok     \* in particular a failing public-IP lookup never fails the request
+    \* the ICMP entry point takes the caller's context: a run that was on its way when the context ended (cancelled or deadline
+    \* passed) has failed, so the request has
+    /\ (H.par.protocol = "icmp" /\ H.cancel >= 0
+          /\ \E w \in WireRuns(H) : /\ SentOfRun(H, w)[1].t < H.cancel
+                                    /\ \E i \in DOMAIN H.hlog : H.hlog[i].ev = "Close" /\ H.hlog[i].run = w /\ H.hlog[i].t > H.cancel)
+        => ~H.out.ok
     /\ H.out.ok => (H.out.pub = IF H.par.public_ip /\ H.par.pub_mode = "ok" THEN "203.0.113.77" ELSE "")
 
 \* C01 through the HTTP API: every reported run is the run of probes that left during THIS request (same source port as a wire run of
